@@ -20,6 +20,7 @@ func EncodeString(b buffer.Buffer, s string) (int, error) {
 	n := size + 1 // plus zero byte
 	p := b.Grow(n)
 	copy(p, s)
+	p[size] = 0 // a reused buffer may hold old data here
 
 	n += encodeSizeType(b, uint32(size), format.TypeString)
 	return n, nil
